@@ -249,6 +249,9 @@ impl MainEvent {
     {
         // I didn't find another way to initialize such large arrays.
         let mut wire_signals = [(); TPC_ANODE_WIRES].map(|_| None);
+        // A wire can end up without a signal (e.g. nothing left after the
+        // delay); duplicate banks need to be tracked separately.
+        let mut wire_seen = [false; TPC_ANODE_WIRES];
         let mut pad_signals = [(); TPC_PAD_COLUMNS].map(|_| [(); TPC_PAD_ROWS].map(|_| None));
         let mut trigger_timestamp = None;
         // Need to group chunks by board and chip.
@@ -279,11 +282,12 @@ impl MainEvent {
 
                     let wire_position = TpcWirePosition::try_new(run_number, board_id, channel_id)?;
                     let wire_index = usize::from(wire_position);
-                    if wire_signals[wire_index].is_some() {
+                    if wire_seen[wire_index] {
                         return Err(TryMainEventFromDataBanksError::DuplicateWireBank {
                             bank_name,
                         });
                     } else {
+                        wire_seen[wire_index] = true;
                         let baseline = try_wire_baseline(run_number, wire_position)?;
                         let gain = try_wire_gain(run_number, wire_position)?;
                         let delay = try_wire_delay(run_number)?;
